@@ -65,13 +65,25 @@ type dropCB struct {
 	mu      sync.Mutex
 	dropped map[uint32]int
 	corrupt int
+	// the callback keeps the message for this long (as a callback that logs or counts per source does) and reads it again
+	hold time.Duration
+	// destination port every message must carry (0: not checked)
+	wantPort int32
 }
 
 func (d *dropCB) Dropped(m utils.Message) {
 	id, ok := checkDatagram(m.Payload)
+	if d.hold > 0 {
+		time.Sleep(d.hold)
+	}
+	// the message handed to the callback must still be this datagram at the end of the call
+	id2, ok2 := checkDatagram(m.Payload)
 	d.mu.Lock()
 	d.dropped[id]++
-	if !ok {
+	if !ok || !ok2 || id != id2 {
+		d.corrupt++
+	}
+	if wp := atomic.LoadInt32(&d.wantPort); wp != 0 && int32(m.Dst.Port()) != wp {
 		d.corrupt++
 	}
 	d.mu.Unlock()
@@ -85,8 +97,10 @@ type udpRun struct {
 	gate    chan struct{}
 	cb      *dropCB
 	// behaviour "error": source address of each datagram as the decoder saw it, and what the error consumer read later
-	srcOf   map[uint32]string
-	errSrc  int
+	srcOf  map[uint32]string
+	errSrc int
+	// destination port the messages of the current session must carry (0: not checked)
+	wantPort int32
 }
 
 func (u *udpRun) decoder(behaviour string) utils.DecoderFunc {
@@ -104,6 +118,10 @@ func (u *udpRun) decoder(behaviour string) utils.DecoderFunc {
 		u.mu.Lock()
 		u.decoded[id]++
 		if !ok || !ok2 || id != id2 {
+			u.corrupt++
+		}
+		// … and it is addressed to the port this session listens on
+		if wp := atomic.LoadInt32(&u.wantPort); wp != 0 && int32(m.Dst.Port()) != wp {
 			u.corrupt++
 		}
 		u.mu.Unlock()
@@ -141,6 +159,10 @@ func sendBurst(port int, ids []uint32, sources int, pace time.Duration) {
 	sizes := []int{12, 13, 100, 512, 1400, 1472, 4000, 8999, 9000, 64}
 	for k, id := range ids {
 		conns[k%sources].Write(mkDatagram(id, sizes[int(id)%len(sizes)]))
+		if k%23 == 22 {
+			// an empty UDP datagram now and then (legal on the wire): the receiver skips it, nothing else changes
+			conns[k%sources].Write([]byte{})
+		}
 		if pace > 0 && k%16 == 15 {
 			time.Sleep(pace)
 		}
@@ -160,7 +182,7 @@ func opUDP(st *state, args []string) []string {
 	n, _ := strconv.Atoi(args[5])
 	u := &udpRun{decoded: map[uint32]int{}, gate: make(chan struct{}), cb: &dropCB{dropped: map[uint32]int{}}}
 	utils.VerifEvent = func(name string, sz int) {
-		if name == "udp.read" {
+		if name == "udp.read" && sz > 0 { // empty datagrams are read and skipped: nothing to decode or drop
 			atomic.AddInt64(&u.reads, 1)
 		}
 	}
@@ -171,6 +193,15 @@ func opUDP(st *state, args []string) []string {
 		return []string{resErr(err)}
 	}
 	port := freeUDPPort()
+	atomic.StoreInt32(&u.wantPort, int32(port))
+	atomic.StoreInt32(&u.cb.wantPort, int32(port))
+	if behaviour == "gated1" {
+		// one P, and a drop callback that keeps its message for a moment: a buffer given back to the pool before the
+		// callback is over is handed to the next read of another socket on the same P
+		behaviour = "gated"
+		u.cb.hold = 200 * time.Microsecond
+		defer runtime.GOMAXPROCS(runtime.GOMAXPROCS(1))
+	}
 	if err := r.Start("127.0.0.1", port, u.decoder(behaviour)); err != nil {
 		return []string{resErr(err)}
 	}
@@ -305,17 +336,24 @@ func opUpDown(st *state, args []string) []string {
 	if err != nil {
 		return []string{resErr(err)}
 	}
-	port := freeUDPPort()
+	// the Start calls alternate between two ports (a receiver restarted on another port); traffic goes to both
+	ports := [2]int{freeUDPPort(), freeUDPPort()}
+	port := ports[0]
 	stopTraffic := make(chan struct{})
 	var twg sync.WaitGroup
 	twg.Add(1)
 	go func() {
 		defer twg.Done()
-		c, err := net.Dial("udp", fmt.Sprintf("127.0.0.1:%d", port))
+		c, err := net.Dial("udp", fmt.Sprintf("127.0.0.1:%d", ports[0]))
 		if err != nil {
 			return
 		}
 		defer c.Close()
+		c2, err := net.Dial("udp", fmt.Sprintf("127.0.0.1:%d", ports[1]))
+		if err != nil {
+			return
+		}
+		defer c2.Close()
 		var id uint32
 		for {
 			select {
@@ -325,6 +363,12 @@ func opUpDown(st *state, args []string) []string {
 			}
 			id++
 			c.Write(mkDatagram(id, 64))
+			id++
+			c2.Write(mkDatagram(id, 64))
+			if id%16 == 0 {
+				c.Write([]byte{})
+				c2.Write([]byte{})
+			}
 			if id%32 == 0 {
 				time.Sleep(100 * time.Microsecond)
 			}
@@ -339,6 +383,9 @@ func opUpDown(st *state, args []string) []string {
 	for _, c := range args[4] {
 		done := make(chan error, 1)
 		var holder *net.UDPConn
+		if c == 'S' || c == 'F' {
+			port = ports[callNo%2]
+		}
 		switch c {
 		case 'S', 'F':
 			// 'F': a foreign socket without SO_REUSEPORT holds the port while Start runs (when the receiver is stopped the
@@ -356,6 +403,12 @@ func opUpDown(st *state, args []string) []string {
 					stolen++
 				}
 				byCall[mine]++
+				// odd ids were sent to the first port, even ids to the second: the message says so whatever session decodes it
+				if m, isM := msg.(*utils.Message); isM {
+					if id, ok := checkDatagram(m.Payload); ok && int(m.Dst.Port()) != ports[(id+1)%2] {
+						u.corrupt++
+					}
+				}
 				u.mu.Unlock()
 				return inner(msg)
 			}
@@ -386,6 +439,7 @@ func opUpDown(st *state, args []string) []string {
 			} else {
 				results = append(results, "0")
 				started = c == 'S' || c == 'F'
+
 				if started {
 					// a receiver that reports it has started must decode the traffic that keeps arriving
 					u.mu.Lock()
@@ -449,7 +503,7 @@ func opDrain(st *state, args []string) []string {
 	k, _ := strconv.Atoi(args[3])
 	u := &udpRun{decoded: map[uint32]int{}, gate: make(chan struct{}), cb: &dropCB{dropped: map[uint32]int{}}}
 	utils.VerifEvent = func(name string, sz int) {
-		if name == "udp.read" {
+		if name == "udp.read" && sz > 0 { // empty datagrams are read and skipped: nothing to decode or drop
 			atomic.AddInt64(&u.reads, 1)
 		}
 	}
@@ -492,7 +546,6 @@ func opDrain(st *state, args []string) []string {
 	fmt.Fprintf(os.Stderr, "drain stats: sent=%d reads=%d decoded=%d\n", k, reads, dec)
 	return []string{fmt.Sprintf("res ok stop=%s undecoded=%d", stopRes, int(reads)-dec)}
 }
-
 
 // startbusy <sockets> <workers> <queue> <blocking>: Start on a port that another socket (without SO_REUSEPORT) holds must
 // return an error — not hang, not leave the receiver half started —, and the same receiver must start on a free port
